@@ -141,10 +141,11 @@ theorem eval_realized (prog : List Ins) (e : Env) (blockIns : List Ins) (pc0 : N
         (st (j + 1)).stack[(st j).stack.length - (blockIns[j]!).op.pops + i]? = some (valOf (j, i))) ∧
       (∀ j, j < k → Forall₂ (Agree valOf) (argsAt blockIns j)
         ((st j).stack.drop ((st j).stack.length - (blockIns[j]!).op.pops))) ∧
+      VSim valOf (symRun blockIns k) (st k).stack ∧
       ∀ p, p < k → (blockIns[p]!).op.pushes = 1 →
         Eval (constructAst blockIns) (fun p => truthy (valOf (p, 0))) (some (p, 0)) (truthy (valOf (p, 0))) := by
-  obtain ⟨valOf, _, hargs, hout⟩ := block_operands prog e blockIns pc0 st k hrun
-  refine ⟨valOf, hout, hargs, ?_⟩
+  obtain ⟨valOf, hvsim, hargs, hout⟩ := block_operands prog e blockIns pc0 st k hrun
+  refine ⟨valOf, hout, hargs, hvsim, ?_⟩
   intro p
   induction p using Nat.strongRecOn with
   | _ p ih =>
